@@ -57,6 +57,86 @@ Theorem C19_fix_pre_needed : exists (f : nat -> nat) h, 1 <= h /\
 Proof. exact fix_pre_needed. Qed.
 Print Assumptions C19_fix_pre_needed.
 
+(* ---- the call sites.  buf: the buffer as a list of lines; img: what vi_drawrow draws for a line (None = the filler); splice
+   buf beg en ins = lbuf_edit(xb, ins, beg, en).  Each theorem: the screen shows the buffer's window, the command's own guards
+   hold and the cursor line is in the window; then the vi_drawfix call of that command leaves the window of the edited buffer. *)
+(* vi_delete, line mode (dd dj dk dG d{ ...): lbuf_edit(NULL, r1, r2+1); vi_drawfix(r1, r2, 0, 0) *)
+Theorem C19_site_delete_lines : forall (R : Type) (blank : R) (line : Type) (img : option line -> R) (buf : list line) W h xrow r1 r2,
+  W <= xrow < W + h -> r1 <= xrow <= r2 -> r2 < length buf ->
+  drawfix R blank (fimg R line img (splice line buf r1 (S r2) [])) W h (Z.of_nat r1) (Z.of_nat r2) 0%Z (win R (fimg R line img buf) W h)
+  = win R (fimg R line img (splice line buf r1 (S r2) [])) W h.
+Proof. exact site_delete_lines. Qed.
+Print Assumptions C19_site_delete_lines.
+(* vi_delete, character mode (x X dw d$ D db d/pat ...): lines r1 .. r2 become the one line l; vi_drawfix(r1, r2, 1, 0) *)
+Theorem C19_site_delete_chars : forall (R : Type) (blank : R) (line : Type) (img : option line -> R) (buf : list line) (l : line) W h xrow r1 r2,
+  W <= xrow < W + h -> r1 <= xrow <= r2 -> r2 < length buf ->
+  drawfix R blank (fimg R line img (splice line buf r1 (S r2) [l])) W h (Z.of_nat r1) (Z.of_nat r2) 1%Z (win R (fimg R line img buf) W h)
+  = win R (fimg R line img (splice line buf r1 (S r2) [l])) W h.
+Proof. exact site_delete_chars. Qed.
+Print Assumptions C19_site_delete_chars.
+(* vi_case (g~ gu gU ~) and vi_shift (> <): as many new lines as old ones; vi_drawfix(r1, r2, r2-r1+1, 0); region starting
+   inside the window *)
+Theorem C19_site_same_count : forall (R : Type) (blank : R) (line : Type) (img : option line -> R) (buf ins : list line) W h xrow r1 r2,
+  W <= xrow < W + h -> W <= r1 <= xrow -> xrow <= r2 -> r2 < length buf -> length ins = S r2 - r1 ->
+  drawfix R blank (fimg R line img (splice line buf r1 (S r2) ins)) W h (Z.of_nat r1) (Z.of_nat r2) (Z.of_nat r2 - Z.of_nat r1 + 1)%Z
+          (win R (fimg R line img buf) W h)
+  = win R (fimg R line img (splice line buf r1 (S r2) ins)) W h.
+Proof. exact site_same_count. Qed.
+Print Assumptions C19_site_same_count.
+(* ... and for a region starting above the window (g~k, >k, <1G on the first row of a scrolled window) the call damages a
+   correct screen: finding KF-DRAWFIX-ABOVE, replayed on the real editor (corpus/C19-kf-drawfix-above.json) *)
+Theorem C19_site_same_count_above_refuted : exists (buf ins : list nat) W h r1 r2,
+  W <= r2 < W + h /\ r1 < W /\ r2 < length buf /\ length ins = S r2 - r1 /\
+  drawfix nat 0 (fimg nat nat (fun o => match o with Some x => x | None => 0 end) (splice nat buf r1 (S r2) ins)) W h
+          (Z.of_nat r1) (Z.of_nat r2) (Z.of_nat r2 - Z.of_nat r1 + 1)%Z
+          (win nat (fimg nat nat (fun o => match o with Some x => x | None => 0 end) buf) W h)
+  <> win nat (fimg nat nat (fun o => match o with Some x => x | None => 0 end) (splice nat buf r1 (S r2) ins)) W h.
+Proof. exact case_above_refuted. Qed.
+Print Assumptions C19_site_same_count_above_refuted.
+(* vc_put of a character-wise register (line xrow becomes the lines of pref ++ register ++ post; vi_drawfix(xrow, xrow, lncnt, 0)
+   with lncnt = linecount - 1 = their number) and vc_replace (one line, or cnt+1 lines for r<CR>) *)
+Theorem C19_site_replace_line : forall (R : Type) (blank : R) (line : Type) (img : option line -> R) (buf ins : list line) W h xrow,
+  W <= xrow < W + h -> xrow < length buf ->
+  drawfix R blank (fimg R line img (splice line buf xrow (S xrow) ins)) W h (Z.of_nat xrow) (Z.of_nat xrow) (Z.of_nat (length ins))
+          (win R (fimg R line img buf) W h)
+  = win R (fimg R line img (splice line buf xrow (S xrow) ins)) W h.
+Proof. exact site_replace_line. Qed.
+Print Assumptions C19_site_replace_line.
+(* vc_join: lines xrow .. xrow+cnt-1 become the line l; vi_drawfix(xrow, xrow + cnt - 1, 1, 0) *)
+Theorem C19_site_join : forall (R : Type) (blank : R) (line : Type) (img : option line -> R) (buf : list line) (l : line) W h xrow cnt,
+  W <= xrow < W + h -> 2 <= cnt -> xrow + cnt <= length buf ->
+  drawfix R blank (fimg R line img (splice line buf xrow (xrow + cnt) [l])) W h (Z.of_nat xrow) (Z.of_nat xrow + Z.of_nat cnt - 1)%Z 1%Z
+          (win R (fimg R line img buf) W h)
+  = win R (fimg R line img (splice line buf xrow (xrow + cnt) [l])) W h.
+Proof. exact site_join. Qed.
+Print Assumptions C19_site_join.
+(* vc_put of a line-wise register of k >= 1 lines: a pure insertion before line xrow (after `p` incremented it: possibly the row
+   just below the window, or one past the last line); vi_drawfix(xrow, xrow, k + 1, 0) since vi.c's linecount is lines + 1 *)
+Theorem C19_site_put_lines : forall (R : Type) (blank : R) (line : Type) (img : option line -> R) (buf ins : list line) W h xrow,
+  1 <= h -> W <= xrow <= W + h -> xrow <= length buf -> 1 <= length ins ->
+  drawfix R blank (fimg R line img (splice line buf xrow xrow ins)) W h (Z.of_nat xrow) (Z.of_nat xrow) (Z.of_nat (length ins) + 1)%Z
+          (win R (fimg R line img buf) W h)
+  = win R (fimg R line img (splice line buf xrow xrow ins)) W h.
+Proof. exact site_put_lines. Qed.
+Print Assumptions C19_site_put_lines.
+
+(* ---- insert mode.  vi_nextline (first thing in `o`, and after every typed newline): the screen that showed the window shows the
+   window with an empty line opened after the cursor line, which is the new cursor line and stays inside the window *)
+Theorem C19_nextline_opens_line : forall (R : Type) (blank : R) (g : nat -> R) h xtop xrow, 1 <= h -> xtop <= xrow < xtop + h ->
+  let '(t, r, rows) := nextline R blank h xtop xrow (win R g xtop h) in
+  r = S xrow /\ t <= r < t + h /\ length rows = h /\
+  forall k, k < h -> nth k rows blank = if t + k =? r then blank else if t + k <? r then g (t + k) else g (t + k - 1).
+Proof. exact nextline_opens_line. Qed.
+Print Assumptions C19_nextline_opens_line.
+(* vi_drawfix(r1, r2, 1, 1), the preview of vi_change (c cc cw cj ck C s S): the window moves up to r1 if the region starts above
+   it, row r1 is the placeholder led_printparts overwrites, all other rows show the buffer without the lines r1+1 .. r2 *)
+Theorem C19_preview_is_repaint : forall (R : Type) (blank : R) (g : nat -> R) W h xrow r1 r2, 1 <= h -> W <= xrow < W + h -> r1 <= xrow <= r2 ->
+  let '(t, rows) := drawfix_preview R blank g W h (Z.of_nat r1) (Z.of_nat r2) 1%Z (win R g W h) in
+  t = Nat.min W r1 /\ t <= r1 < t + h /\ length rows = h /\
+  forall k, k < h -> t + k <> r1 -> nth k rows blank = if t + k <? r1 then g (t + k) else g (t + k + (r2 - r1)).
+Proof. exact preview_is_repaint. Qed.
+Print Assumptions C19_preview_is_repaint.
+
 (* the redraw decision at the tail of vi(): full redraw, one-line redraw, or scroll + highlight rows *)
 Theorem C19_tail_is_repaint : forall (R : Type) (blank : R) (g f : nat -> R) h (mr mw lc hll : bool) otop xtop orow xrow,
   xtop <= xrow < xtop + h ->
@@ -84,10 +164,14 @@ Print Assumptions C19_window_follows_horizontal.
 (* the command loop keeps "the text rows are the repaint of the current rows at the current top and
    the cursor line is in the window", for every sequence of commands whose bodies meet step_ok.
    _partial: step_ok is established for motions/scrolls (motion_step_ok) and for an edit repaired by
-   vi_drawfix inside fix_pre (drawfix_step_ok); that every vc_* call site passes arguments describing
-   the splice it made, and the insert-mode display (led_printparts, vi_nextline), are only explored
-   by the run against the real binary.  Full statement intended: for every key sequence of the
-   C07/C08 command set, coherent holds after every command. *)
+   vi_drawfix inside fix_pre (drawfix_step_ok); the C19_site_* theorems above show that the calls of
+   vi_delete, vi_case/vi_shift (region starting inside the window), vc_put, vc_join and vc_replace lie
+   inside fix_pre and describe the splice made.  Missing: the composition of an insert (preview +
+   vi_nextline per newline + led_printparts per key + the final vi_drawfix(r1, r1+row-1, row, 0)) into one
+   step -- C19_nextline_opens_line and C19_preview_is_repaint are its two screen-moving parts --, ex
+   commands (full repaint, trivially a step), split windows; those are explored by the run against the real
+   binary.  Full statement intended: for every key sequence of the C07/C08 command set, coherent holds
+   after every command. *)
 Theorem C19_loop_partial : forall (R : Type) (blank : R) h (s : vstate R) (cs : list (step R)),
   coherent R h s -> steps_ok R blank h s cs -> coherent R h (run_steps R blank h s cs).
 Proof. exact loop_coherent. Qed.
